@@ -3,8 +3,8 @@ import CTV.Model.Retry
 # C13 — submission retries follow the server's pacing and stop when they should
 
 Theorems over the **regenerated** kernels `Gen.backoffSet` (jsonclient/backoff.go `backoff.set`, with `time.Now()` as
-the parameter `now_`), `Gen.waitDur` (the sleep computed by `waitForBackoff`), `Gen.retryClass` (the status switch of
-`PostAndParseWithRetry`), `Gen.retryAfterSeconds` (the duration computed from `Retry-After: <seconds>`, including its
+the parameter `now_`), `Gen.waitDur` (the sleep computed by `waitForBackoff`), `Spec.retryClass` (the status switch of
+`PostAndParseWithRetry`), `Spec.retryAfterSeconds` (the duration computed from `Retry-After: <seconds>`, including its
 overflow handling), `Gen.maxMultiplier`, `Gen.maxJitter`, and the hand model of the loop in `CTV.Model.Retry` (tied by
 the virtual-time correspondence run).
 
@@ -40,7 +40,8 @@ theorem set_mult_inv (nb m now : Int) (ov : Option Int) (h : 0 ≤ m ∧ m ≤ G
     0 ≤ (Gen.backoffSet nb m now ov).2.2 ∧ (Gen.backoffSet nb m now ov).2.2 ≤ Gen.maxMultiplier := by
   have h8 : Gen.maxMultiplier = 8 := by decide
   rw [h8] at h ⊢
-  unfold Gen.backoffSet
+  rw [Gen.backoffSet_eq_spec]
+  unfold Spec.backoffSet
   rw [h8]
   split
   · (try dsimp only); omega
@@ -57,7 +58,8 @@ theorem set_mult_inv (nb m now : Int) (ov : Option Int) (h : 0 ≤ m ∧ m ≤ G
 /-- while the stored `notBefore` is still in the future, `set` never moves it backwards -/
 theorem set_notBefore_mono (nb m now : Int) (ov : Option Int) (hfut : nb > now) :
     nb ≤ (Gen.backoffSet nb m now ov).2.1 := by
-  unfold Gen.backoffSet
+  rw [Gen.backoffSet_eq_spec]
+  unfold Spec.backoffSet
   simp only [hfut, decide_true, if_true]
   cases ov with
   | none => simp
@@ -72,7 +74,8 @@ theorem set_notBefore_mono (nb m now : Int) (ov : Option Int) (hfut : nb > now) 
 theorem set_ge_override (nb m now d : Int) (hd : IsDur d) :
     now + d ≤ (Gen.backoffSet nb m now (some d)).2.1 ∧ d ≤ (Gen.backoffSet nb m now (some d)).1 := by
   unfold IsDur at hd
-  unfold Gen.backoffSet
+  rw [Gen.backoffSet_eq_spec]
+  unfold Spec.backoffSet
   simp only [Option.isSome_some, if_true, Option.getD_some, T.add, T.sub]
   by_cases hfut : nb > now
   · simp only [hfut, decide_true, if_true]
@@ -95,7 +98,8 @@ theorem waitDur_bounds (nb now j : Int) (hj : 0 ≤ j ∧ j * 1000000 < Gen.maxJ
     Gen.waitDur nb now j ≤ max 0 (sat (nb - now + Gen.maxJitter)) := by
   have hmj : Gen.maxJitter = 250000000 := by decide
   rw [hmj] at hj ⊢
-  unfold Gen.waitDur
+  rw [Gen.waitDur_eq_spec]
+  unfold Spec.waitDur
   have h1 : I64.wrap64 j = j := w _ (by omega) (by omega)
   rw [h1]
   have h2 : I64.mul 1000000 j = 1000000 * j := mul_eq _ _ (by omega) (by omega)
@@ -118,8 +122,8 @@ theorem tdiv_e9_bounds (x : Int) (h : -(2^63) ≤ x ∧ x < 2^63) :
 /-- what `Retry-After: n` (seconds) becomes: `n` seconds, saturated to the largest / smallest `time.Duration` when
 `n · 10⁹` does not fit — for **every** integer `n` that `strconv.Atoi` can return. -/
 theorem retryAfterSeconds_sat (n : Int) (hn : -(2^63) ≤ n ∧ n < 2^63) :
-    Gen.retryAfterSeconds n = sat (n * 1000000000) := by
-  unfold Gen.retryAfterSeconds
+    Spec.retryAfterSeconds n = sat (n * 1000000000) := by
+  unfold Spec.retryAfterSeconds
   rw [w n hn.1 hn.2]
   by_cases hin : -(2^63) ≤ n * 1000000000 ∧ n * 1000000000 < 2^63
   · rw [mul_eq _ _ hin.1 hin.2, sat_id hin.1 hin.2]
@@ -224,7 +228,9 @@ theorem set_cap (s : BState) (now U : Int) (ov : Option Int) (h : CapInv s now U
   have hm := set_mult_inv s.notBefore s.mult now ov (by rw [show Gen.maxMultiplier = 8 by decide]; omega)
   rw [show Gen.maxMultiplier = 8 by decide] at hm
   refine ⟨hm.1, hm.2, ?_⟩
-  unfold applySet askedUntil Gen.backoffSet
+  unfold applySet askedUntil
+  rw [Gen.backoffSet_eq_spec]
+  unfold Spec.backoffSet
   have hm8 : Gen.maxMultiplier = 8 := by decide
   cases ov with
   | some d =>
@@ -313,8 +319,8 @@ theorem askedAfter_none (U now : Int) (r : Resp) (h : ∀ st ra, r = .http st ra
 theorem classOf_eq (st : Nat) :
     classOf st = (if st = 200 then 0 else if st = 408 then 1 else if st = 503 then 2 else if st = 429 then 2 else 3) := by
   unfold classOf
-  have : Gen.retryClass = [(200, 0), (408, 1), (503, 2), (429, 2)] := by decide
-  have hd : Gen.retryClassDefault = 3 := by decide
+  have : Spec.retryClass = [(200, 0), (408, 1), (503, 2), (429, 2)] := by decide
+  have hd : Spec.retryClassDefault = 3 := by decide
   rw [this, hd]
   simp only [List.lookup]
   by_cases h1 : st = 200
@@ -456,11 +462,92 @@ example : Gen.backoffSet zeroInstant 0 1700000000000000000 none = (1000000000, 1
 example : Gen.backoffSet 1700000001000000000 8 1700000002000000000 none = (128000000000, 1700000130000000000, 8) := by decide
 example : Gen.backoffSet 1700000100000000000 3 1700000002000000000 (some 5000000000) = (98000000000, 1700000100000000000, 3) := by decide
 example : (onResponse BState.init 1700000000000000000 (.http 429 (.secs 30))).2.notBefore = 1700000030000000000 := by decide
-example : Gen.retryAfterSeconds 9223372037 = 9223372036854775807 ∧ Gen.retryAfterSeconds 18446744074 = 9223372036854775807 ∧
-    Gen.retryAfterSeconds 3600 = 3600000000000 := by decide
+example : Spec.retryAfterSeconds 9223372037 = 9223372036854775807 ∧ Spec.retryAfterSeconds 18446744074 = 9223372036854775807 ∧
+    Spec.retryAfterSeconds 3600 = 3600000000000 := by decide
 example : classOf 429 = 2 ∧ classOf 503 = 2 ∧ classOf 408 = 1 ∧ classOf 500 = 3 ∧ classOf 200 = 0 := by decide
 example : CapInv BState.init 1700000000000000000 zeroInstant := by unfold CapInv BState.init zeroInstant; simp; omega
 example : run BState.init [(10, .otherErr), (20, .http 503 .none), (30, .http 200 .none), (40, .http 500 .none)] = some (.retOk, 3) := by decide
 example : run BState.init [(10, .http 408 .none), (20, .http 404 .none)] = some (.retErr, 2) := by decide
+
+end C13
+
+/-! ## the model's loop step is the regenerated loop body
+
+`Gen.retryStep` is one iteration of `PostAndParseWithRetry`'s `for { … }`, translated statement by statement on every run
+(whatever its shape: `if err != nil {…} else { switch status {…} }`, one tagless switch, the Retry-After parsing in a helper):
+how the iteration ends (`.ok` + returned = success, `.passthrough` = the error it was given — a context error from the request
+or from the wait —, `.fresh` = an `RspError`; not returned = go round again), and what `backoff.set` was called with. -/
+namespace C13
+open CTV.Model.Retry
+
+/-- what the loop body observes of a response -/
+structure Obs where
+  postErr : Bool
+  errCanceled : Bool
+  errDeadline : Bool
+  status : Int
+  raPresent : Bool
+  secsOk : Bool
+  seconds : Int
+  dateOk : Bool
+  date : Int
+
+def obsOf : Resp → Obs
+  | .ctxErr => ⟨true, true, false, 0, false, false, 0, false, 0⟩
+  | .otherErr => ⟨true, false, false, 0, false, false, 0, false, 0⟩
+  | .http st .none => ⟨false, false, false, st, false, false, 0, false, 0⟩
+  | .http st .junk => ⟨false, false, false, st, true, false, 0, false, 0⟩
+  | .http st (.secs n) => ⟨false, false, false, st, true, true, n, false, 0⟩
+  | .http st (.date d) => ⟨false, false, false, st, true, false, 0, true, d⟩
+
+theorem classOf_cases (st : Nat) :
+    classOf st = if st = 200 then 0 else if st = 408 then 1 else if st = 503 ∨ st = 429 then 2 else 3 := by
+  unfold classOf Spec.retryClass Spec.retryClassDefault
+  by_cases h1 : st = 200
+  · subst h1; rfl
+  by_cases h2 : st = 408
+  · subst h2; rfl
+  by_cases h3 : st = 503
+  · subst h3; rfl
+  by_cases h4 : st = 429
+  · subst h4; rfl
+  have e1 : (st == 200) = false := by simp [h1]
+  have e2 : (st == 408) = false := by simp [h2]
+  have e3 : (st == 503) = false := by simp [h3]
+  have e4 : (st == 429) = false := by simp [h4]
+  simp [List.lookup, e1, e2, e3, e4, h1, h2, h3, h4]
+
+/-- **The hand model of one loop iteration is the regenerated loop body**: for every back-off state, instant, response and
+outcome `wf` of the wait (`true` = the context ended while waiting) -/
+theorem step_is_onResponse (s : BState) (now : Int) (r : Resp) (wf : Bool) :
+    let o := obsOf r
+    let g := Gen.retryStep o.postErr o.errCanceled o.errDeadline o.status o.raPresent o.secsOk o.seconds o.dateOk o.date now wf
+    match onResponse s now r with
+    | (.retCtx, _) => g = (.passthrough, none, true)
+    | (.retOk, _) => g = (.ok, none, true)
+    | (.retErr, _) => g = (.fresh, none, true)
+    | (.retry, s') => g.2.2 = wf ∧ g.1 = (if wf then .passthrough else .ok) ∧
+        s' = (match g.2.1 with | none => s | some ov => (applySet s now ov).2) := by
+  rw [Gen.retryStep_eq_spec]
+  cases r with
+  | ctxErr => simp [onResponse, obsOf, Spec.retryStep]
+  | otherErr => cases wf <;> simp [onResponse, obsOf, Spec.retryStep]
+  | http st ra =>
+    simp only [onResponse, classOf_cases]
+    by_cases h1 : st = 200
+    · subst h1; cases ra <;> simp [obsOf, Spec.retryStep]
+    by_cases h2 : st = 408
+    · subst h2; cases ra <;> cases wf <;> simp [obsOf, Spec.retryStep]
+    by_cases h3 : st = 503 ∨ st = 429
+    · rcases h3 with h3 | h3 <;> subst h3 <;> cases ra <;> cases wf <;>
+        simp [obsOf, Spec.retryStep, overrideOf, Spec.retryAfterSeconds] <;> (try grind)
+    · have n1 : ¬ ((st : Int) = 200) := by omega
+      have n2 : ¬ ((st : Int) = 408) := by omega
+      have n3 : ¬ ((st : Int) = 503) := by omega
+      have n4 : ¬ ((st : Int) = 429) := by omega
+      cases ra <;> simp [obsOf, Spec.retryStep, h1, h2, h3, n1, n2, n3, n4]
+
+/-- the jitter is drawn from `[0, maxJitter)` in milliseconds: the regenerated, evaluated bound of the `rand.Intn` call -/
+theorem jitter_bound : Gen.jitterBoundMs * 1000000 = Gen.maxJitter := by decide
 
 end C13
